@@ -178,6 +178,130 @@ macro_rules! run_width {
     }};
 }
 
+// ------------------------------------------------------------------ conversion chains (C05)
+#[derive(Clone, Copy, Debug)]
+enum Rep { Q(Quat), M3(Mat3), M3A(Mat3A), M4(Mat4), A3(Affine3A), DQ(DQuat), DM3(DMat3), DM4(DMat4), DA3(DAffine3) }
+
+fn rep_start(name: &str, a: f64, b: f64, c: f64) -> Rep {
+    let o = EulerRot::XYZ;
+    let (af, bf, cf) = (a as f32, b as f32, c as f32);
+    match name {
+        "Quat" => Rep::Q(Quat::from_euler(o, af, bf, cf)),
+        "Mat3" => Rep::M3(Mat3::from_euler(o, af, bf, cf)),
+        "Mat3A" => Rep::M3A(Mat3A::from_euler(o, af, bf, cf)),
+        "Mat4" => Rep::M4(Mat4::from_euler(o, af, bf, cf)),
+        "Affine3A" => Rep::A3(Affine3A::from_mat3(Mat3::from_euler(o, af, bf, cf))),
+        "DQuat" => Rep::DQ(DQuat::from_euler(o, a, b, c)),
+        "DMat3" => Rep::DM3(DMat3::from_euler(o, a, b, c)),
+        "DMat4" => Rep::DM4(DMat4::from_euler(o, a, b, c)),
+        "DAffine3" => Rep::DA3(DAffine3::from_mat3(DMat3::from_euler(o, a, b, c))),
+        _ => panic!("start {name}"),
+    }
+}
+fn rep_hop(r: Rep, f: &str) -> Rep {
+    match (r, f) {
+        (Rep::Q(q), "Mat3::from_quat") => Rep::M3(Mat3::from_quat(q)),
+        (Rep::Q(q), "Mat3A::from_quat") => Rep::M3A(Mat3A::from_quat(q)),
+        (Rep::Q(q), "Mat4::from_quat") => Rep::M4(Mat4::from_quat(q)),
+        (Rep::Q(q), "Affine3A::from_quat") => Rep::A3(Affine3A::from_quat(q)),
+        (Rep::Q(q), "as_dquat") => Rep::DQ(q.as_dquat()),
+        (Rep::M3(m), "Quat::from_mat3") => Rep::Q(Quat::from_mat3(&m)),
+        (Rep::M3A(m), "Quat::from_mat3a") => Rep::Q(Quat::from_mat3a(&m)),
+        (Rep::M4(m), "Quat::from_mat4") => Rep::Q(Quat::from_mat4(&m)),
+        (Rep::A3(a), "Quat::from_affine3") => Rep::Q(Quat::from_affine3(&a)),
+        (Rep::M3(m), "Mat3A::from") => Rep::M3A(Mat3A::from(m)),
+        (Rep::M3A(m), "Mat3::from") => Rep::M3(Mat3::from(m)),
+        (Rep::M3(m), "Mat4::from_mat3") => Rep::M4(Mat4::from_mat3(m)),
+        (Rep::M3A(m), "Mat4::from_mat3a") => Rep::M4(Mat4::from_mat3a(m)),
+        (Rep::M4(m), "Mat3::from_mat4") => Rep::M3(Mat3::from_mat4(m)),
+        (Rep::M4(m), "Mat3A::from_mat4") => Rep::M3A(Mat3A::from_mat4(m)),
+        (Rep::M3(m), "Affine3A::from_mat3") => Rep::A3(Affine3A::from_mat3(m)),
+        (Rep::A3(a), "Mat4::from") => Rep::M4(Mat4::from(a)),
+        (Rep::M4(m), "Affine3A::from_mat4") => Rep::A3(Affine3A::from_mat4(m)),
+        (Rep::A3(a), "matrix3") => Rep::M3A(a.matrix3),
+        (Rep::M3(m), "as_dmat3") => Rep::DM3(m.as_dmat3()),
+        (Rep::M3A(m), "as_dmat3") => Rep::DM3(m.as_dmat3()),
+        (Rep::M4(m), "as_dmat4") => Rep::DM4(m.as_dmat4()),
+        (Rep::A3(a), "as_daffine3") => Rep::DA3(a.as_daffine3()),
+        (Rep::DQ(q), "DMat3::from_quat") => Rep::DM3(DMat3::from_quat(q)),
+        (Rep::DQ(q), "DMat4::from_quat") => Rep::DM4(DMat4::from_quat(q)),
+        (Rep::DQ(q), "DAffine3::from_quat") => Rep::DA3(DAffine3::from_quat(q)),
+        (Rep::DQ(q), "as_quat") => Rep::Q(q.as_quat()),
+        (Rep::DM3(m), "DQuat::from_mat3") => Rep::DQ(DQuat::from_mat3(&m)),
+        (Rep::DM4(m), "DQuat::from_mat4") => Rep::DQ(DQuat::from_mat4(&m)),
+        (Rep::DA3(a), "DQuat::from_affine3") => Rep::DQ(DQuat::from_affine3(&a)),
+        (Rep::DM3(m), "DMat4::from_mat3") => Rep::DM4(DMat4::from_mat3(m)),
+        (Rep::DM4(m), "DMat3::from_mat4") => Rep::DM3(DMat3::from_mat4(m)),
+        (Rep::DM3(m), "DAffine3::from_mat3") => Rep::DA3(DAffine3::from_mat3(m)),
+        (Rep::DA3(a), "DMat4::from") => Rep::DM4(DMat4::from(a)),
+        (Rep::DM4(m), "DAffine3::from_mat4") => Rep::DA3(DAffine3::from_mat4(m)),
+        (Rep::DM3(m), "as_mat3") => Rep::M3(m.as_mat3()),
+        (Rep::DM4(m), "as_mat4") => Rep::M4(m.as_mat4()),
+        (Rep::DA3(a), "as_affine3a") => Rep::A3(a.as_affine3a()),
+        (r, f) => panic!("no edge {f} from {:?}", r),
+    }
+}
+/// the action of a representation on a vector, through every method that applies it
+fn rep_act(r: Rep, v: [f64; 3]) -> Vec<(&'static str, [f64; 3])> {
+    let f = Vec3::new(v[0] as f32, v[1] as f32, v[2] as f32);
+    let fa = Vec3A::from(f);
+    let d = DVec3::new(v[0], v[1], v[2]);
+    let w = |x: Vec3| [x.x as f64, x.y as f64, x.z as f64];
+    let wa = |x: Vec3A| [x.x as f64, x.y as f64, x.z as f64];
+    let wd = |x: DVec3| [x.x, x.y, x.z];
+    match r {
+        Rep::Q(q) => vec![("q * v", w(q * f)), ("q * Vec3A", wa(q * fa))],
+        Rep::M3(m) => vec![("m * v", w(m * f)), ("m * Vec3A", wa(m * fa))],
+        Rep::M3A(m) => vec![("m * v", w(m * f)), ("m * Vec3A", wa(m * fa))],
+        Rep::M4(m) => vec![("transform_vector3", w(m.transform_vector3(f))), ("transform_point3", w(m.transform_point3(f))), ("transform_vector3a", wa(m.transform_vector3a(fa))),
+                           ("project_point3", w(m.project_point3(f))), ("m * (v,0)", w((m * f.extend(0.0)).truncate()))],
+        Rep::A3(a) => vec![("transform_vector3", w(a.transform_vector3(f))), ("transform_point3", w(a.transform_point3(f))), ("transform_point3a", wa(a.transform_point3a(fa)))],
+        Rep::DQ(q) => vec![("q * v", wd(q * d))],
+        Rep::DM3(m) => vec![("m * v", wd(m * d))],
+        Rep::DM4(m) => vec![("transform_vector3", wd(m.transform_vector3(d))), ("transform_point3", wd(m.transform_point3(d)))],
+        Rep::DA3(a) => vec![("transform_vector3", wd(a.transform_vector3(d))), ("transform_point3", wd(a.transform_point3(d)))],
+    }
+}
+fn rep_is_f64(r: Rep) -> bool { matches!(r, Rep::DQ(_) | Rep::DM3(_) | Rep::DM4(_) | Rep::DA3(_)) }
+fn rep_name(r: Rep) -> &'static str {
+    match r { Rep::Q(_) => "Quat", Rep::M3(_) => "Mat3", Rep::M3A(_) => "Mat3A", Rep::M4(_) => "Mat4", Rep::A3(_) => "Affine3A",
+              Rep::DQ(_) => "DQuat", Rep::DM3(_) => "DMat3", Rep::DM4(_) => "DMat4", Rep::DA3(_) => "DAffine3" }
+}
+
+fn run_chain(cx: &mut Cx, c: &Value) {
+    let sd: Vec<f64> = c["seed"].as_array().unwrap().iter().map(|x| x.as_i64().unwrap() as f64 * std::f64::consts::FRAC_PI_4).collect();
+    let m = ringv(&c["exp"]["m"]);
+    let probes = [[1.0, 2.0, 3.0], [-2.0, 0.5, 1.0], [0.0, 0.0, 1.0]];
+    let expect = |v: [f64; 3]| [m[0] * v[0] + m[3] * v[1] + m[6] * v[2], m[1] * v[0] + m[4] * v[1] + m[7] * v[2], m[2] * v[0] + m[5] * v[1] + m[8] * v[2]];
+    let r0 = catch(|| rep_start(c["start"].as_str().unwrap(), sd[0], sd[1], sd[2]));
+    let Ok(mut r) = r0 else { cx.rep.mismatch(json!({"prop": cx.prop, "ty": c["start"], "op": "start", "what": "panic", "case": c})); return; };
+    let mut all_f64 = rep_is_f64(r);
+    let path: Vec<&str> = c["path"].as_array().unwrap().iter().map(|x| x.as_str().unwrap()).collect();
+    for hop in 0..=path.len() {
+        if hop > 0 {
+            match catch(|| rep_hop(r, path[hop - 1])) {
+                Ok(n) => r = n,
+                Err(p) => { cx.rep.mismatch(json!({"prop": cx.prop, "ty": rep_name(r), "op": path[hop - 1], "what": "panic", "panic": p, "case": c})); return; }
+            }
+            all_f64 = all_f64 && rep_is_f64(r);
+        }
+        let tol = if all_f64 { 1e-11 } else { 4e-5 };
+        for v in probes {
+            let e = expect(v);
+            for (how, g) in rep_act(r, v) {
+                cx.rep.evals += 1;
+                if (0..3).any(|i| (e[i] - g[i]).abs() > tol) {
+                    cx.rep.mismatch(json!({"prop": cx.prop, "ty": rep_name(r), "op": if hop == 0 { "start" } else { path[hop - 1] }, "how": how,
+                        "hop": hop, "branch": c["branch"], "probe": v, "exp": e, "got": g, "tol": tol, "path": c["path"], "seed": c["seed"], "case": c}));
+                    return;
+                }
+            }
+        }
+        if let Rep::Q(q) = r { if (q.length() as f64 - 1.0).abs() > 1e-5 { cx.rep.mismatch(json!({"prop": cx.prop, "ty": "Quat", "op": "unit length", "got": q.length(), "case": c})); return; } }
+        if let Rep::DQ(q) = r { if (q.length() - 1.0).abs() > 1e-5 { cx.rep.mismatch(json!({"prop": cx.prop, "ty": "DQuat", "op": "unit length", "got": q.length(), "case": c})); return; } }
+    }
+}
+
 fn main() {
     let args: Vec<String> = std::env::args().collect();
     quiet_panics();
@@ -185,6 +309,14 @@ fn main() {
     let mut cx = Cx { rep: &mut rep, prop: std::env::var("HX_PROP").unwrap_or("C09".into()) };
     let mut n = 0u64;
     read_cases(&args[1], "CASE", |c| {
+        if c["fam"] == "chain" {
+            n += 1;
+            cx.rep.nontrivial += 1;
+            cx.rep.count_op(&format!("chain:{}:{}", c["start"].as_str().unwrap(), c["branch"].as_str().unwrap()), 1);
+            if cx.rep.samples.len() < 3 && n % 9973 == 1 { cx.rep.samples.push(c.clone()); }
+            run_chain(&mut cx, &c);
+            return;
+        }
         if c["fam"] != "rot" { return; }
         n += 1;
         let kind = c["kind"].as_str().unwrap().to_string();
